@@ -98,7 +98,8 @@ Fixpoint agg_loop (aggs : list agg) (i : nat) (name : bytes) : list nat * bool :
   | a :: aggs' =>
       if negb (mpre (a_matcher a) name) then agg_loop aggs' (S i) name
       else
-        let takes := match m_regex (a_matcher a) with Some r => search r name | None => false end in
+        let takes := match m_regex (a_matcher a) with Some r => search r name | None => false end
+                     && negb (match m_notRegex (a_matcher a) with Some r => search r name | None => false end) in
         if a_dropraw a then
           if takes then ([i], true) else agg_loop aggs' (S i) name
         else
